@@ -137,11 +137,17 @@ theorem argXml_ok (C : Codec) {a : Arg} {x : Xml} (hs : argShape a = true) (hn :
     obtain ⟨as, ks, n, he, hn'⟩ := encPath_name_noNs C p hn
     exact ⟨struct_encPath C p hs, as, ks, n, he, by rcases hn' with rfl | rfl <;> simp [iparamKidNames]⟩
   | inst i =>
-    simp only [argXml] at h; obtain ⟨rfl, _⟩ := checked_ok h
+    simp only [argXml, instXml] at h
+    split at h
+    · cases h
+    obtain ⟨rfl, _⟩ := checked_ok h
     obtain ⟨as, ks, n, he, hn'⟩ := encInst_name_noNs C i hn
     exact ⟨struct_encInst C i hs, as, ks, n, he, by rcases hn' with rfl | rfl <;> simp [iparamKidNames]⟩
   | cls c =>
-    simp only [argXml] at h; obtain ⟨rfl, _⟩ := checked_ok h
+    simp only [argXml, clsXml] at h
+    split at h
+    · cases h
+    obtain ⟨rfl, _⟩ := checked_ok h
     refine ⟨struct_encCls C c hs, ?_⟩
     cases c; exact ⟨_, _, _, by simp only [encCls, E]; rfl, by simp [iparamKidNames]⟩
   | qdecl q =>
